@@ -176,10 +176,10 @@ theorem overwrite_eq_spec_partial (l : Bits) (b : Operand) (pos : Int)
   sorry
 
 theorem overwrite_self_witness :
-    Alg.overwrite [true, true, false, true, false, false] .self 2 = .error (.internal "AssertionError") ∧
+    (∃ err, Alg.overwrite [true, true, false, true, false, false] .self 2 = .error err) ∧
     Spec.overwrite [true, true, false, true, false, false] [true, true, false, true, false, false] 2 =
       .ok [true, true, true, true, false, true, false, false] := by
-  decide
+  exact ⟨⟨_, rfl⟩, by decide⟩
 
 theorem overwrite_shape (l b r : Bits) (pos : Int) (h : Spec.overwrite l b pos = .ok r) :
     ∃ p, Spec.insPos l.length pos = some p ∧ p ≤ l.length ∧
